@@ -102,6 +102,13 @@ func (f *RawMessageFilter) pushToCache(height primitives.BlockHeight, message in
 }
 
 func (f *RawMessageFilter) processConsensusMessage(message interfaces.ConsensusMessage) {
+	// the content of a message is untrusted bytes that are decoded lazily: a malformed one is dropped here, so that it
+	// cannot unwind the caller - in particular the replay of cached messages when a round is started by node sync
+	defer func() {
+		if r := recover(); r != nil {
+			f.logger.Error("LHFILTER dropped a message that could not be processed: %v", r)
+		}
+	}()
 	if f.consensusMessagesHandler == nil {
 		f.logger.Info("LHFILTER consensusMessagesHandler is nil, ignoring message %s", message.MessageType())
 		return
